@@ -278,6 +278,21 @@ func check(prop, tier string) int {
 func runJob(self string, c harness.Cfg) *explore.Result {
 	cmd := exec.Command(self, "run", c.String())
 	cmd.Env = append(os.Environ(), "GOMAXPROCS=2", "GOGC=200")
+	raceLog := ""
+	if c.Harness == "race" {
+		os.MkdirAll(filepath.Join(verifDir, ".build", "racelogs"), 0o755)
+		f, _ := os.CreateTemp(filepath.Join(verifDir, ".build", "racelogs"), "race-*")
+		raceLog = f.Name()
+		f.Close()
+		os.Remove(raceLog)
+		cmd.Env = append(cmd.Env, "GORACE=log_path="+raceLog)
+		defer func() {
+			ms, _ := filepath.Glob(raceLog + ".*")
+			for _, m := range ms {
+				os.Remove(m)
+			}
+		}()
+	}
 	var out, errb bytes.Buffer
 	cmd.Stdout = &out
 	cmd.Stderr = &errb
@@ -304,6 +319,25 @@ func runJob(self string, c harness.Cfg) *explore.Result {
 	lines := bytes.Split(bytes.TrimSpace(out.Bytes()), []byte("\n"))
 	if err := json.Unmarshal(lines[len(lines)-1], &res); err != nil {
 		return &explore.Result{InfraError: "worker output: " + err.Error(), Outcomes: map[string]int{}}
+	}
+	if raceLog != "" && res.Violation != nil {
+		// attach the detector's report
+		ms, _ := filepath.Glob(raceLog + ".*")
+		for _, m := range ms {
+			if b, err := os.ReadFile(m); err == nil {
+				rep := strings.Split(string(b), "\n")
+				if len(rep) > 70 {
+					rep = rep[:70]
+				}
+				res.Violation.Trace = append(res.Violation.Trace, rep...)
+				for _, l := range rep {
+					if strings.Contains(l, "/repo/") {
+						res.Violation.Message += " [" + strings.TrimSpace(l) + "]"
+						break
+					}
+				}
+			}
+		}
 	}
 	return &res
 }
